@@ -125,7 +125,7 @@ pub struct Peer {
     pub dc: Option<Arc<DataChannel>>,
     pub audio: Option<Arc<SampleStreamSource>>,
     pub video: Option<Arc<SampleStreamSource>>,
-    keep: Vec<Box<dyn std::any::Any + Send>>,
+    keep: Vec<Box<dyn std::any::Any + Send + Sync>>,
 }
 
 pub fn opus() -> RtpCodecParameters {
